@@ -995,7 +995,10 @@ static int apply(const struct op *o)
 			break;
 		}
 		key_rule(o->pgno, o->subno, mn->ptype[o->pgno - 0x100], &stored, &mask);
-		victim = model_lookup(m, o->pgno, stored & mask, mask);
+		/* one version (mask 0): the page's own previous copy is replaced when other versions are cached
+		   beside it (subpages, other subcodes), else the most recently used version */
+		if (mask == 0) victim = model_lookup(m, o->pgno, stored, 0xFFFF);
+		if (!victim) victim = model_lookup(m, o->pgno, stored & mask, mask);
 		{
 			unsigned long mm = model_memory();
 			unsigned long need = model_size(o->a);
